@@ -284,7 +284,7 @@ fn batch_key(k: &[u64; 6]) -> BatchKey {
     }
 }
 fn digest_of(l: &[u64; 4]) -> BytesDigest {
-    BytesDigest::try_from(limbs_digest(l)).unwrap()
+    BytesDigest::try_from(limbs_digest(l)).unwrap_or_else(|_| BytesDigest::new_unchecked(limbs_digest(l)))
 }
 fn ns(d: Duration) -> i128 {
     d.as_nanos() as i128
@@ -558,7 +558,14 @@ fn one_history(u: &mut Universe, r: &mut Rng, out: &mut Out, cnt: &mut Counts, m
             let n = r.below(4) as usize;
             let mut set: Vec<[u64; 4]> = Vec::new();
             for _ in 0..n {
-                let d = if r.chance(1, 10) { [9, 9, 9, 9] } else { *r.pick(&NULLS) };
+                let mut d = if r.chance(1, 10) { [9, 9, 9, 9] } else { *r.pick(&NULLS) };
+                if r.chance(1, 8) {
+                    // the NON-CANONICAL byte twin of a nullifier (one limb + p): other bytes, same field elements -
+                    // a settlement entry that must not match anything
+                    if let Some(k) = (0..4).find(|&k| d[k] < (u64::MAX - P)) {
+                        d[k] += P;
+                    }
+                }
                 if !set.contains(&d) {
                     set.push(d);
                 }
